@@ -112,7 +112,12 @@ def run(ctx):
                 'no converter active; operations within one currency; user-declared currencies with valid and invalid '
                 'minor unit / smallest fraction.')
     ctx.assumptions = ['the ISO table is read by the harness\'s own XML parser, not by the library']
-    cs = [dict(op='iso', code=c) for c in codes]
+    # nine decimals divided by the quantum 1 (where the pinned decimalfp mis-divides, DESIGN 5.2) - first, so that it
+    # is among the cases confirmed on the unguarded library
+    f9 = F(10810546875, 10 ** 9)
+    cs = [dict(op='construct', how='obj', text='', minor=0, sfv=V('int', 1), sf=qj(1), mode='ROUND_HALF_EVEN',
+               amt=qj(f9), amtv=V('dec', f9))]
+    cs += [dict(op='iso', code=c) for c in codes]
     cs += [dict(op='iso', code=c) for c in ('XAU', 'XXX', 'XTS', 'eur', 'EURO', 'E', '', 'ABC', 'XBA', 'DEM', 'ZZZ')]
     cs.append(dict(op='isocount'))
     sample = codes if not quick else sorted(rnd.sample(codes, 40) + ['EUR', 'USD', 'JPY', 'KWD', 'CLF', 'BHD'])
